@@ -105,6 +105,10 @@ def run(rep: Report) -> None:
     from . import c01 as _c01
 
     _c01.run(rep, only_prims=lambda pr: pr.startswith("origins."), only_cfg=lambda cfg: False)
+    # ... whichever engine and however they are called (same parameters, same default values)
+    from . import c15 as _c15
+
+    _c15.signatures_agree(rep, only_group="origins")
     from .. import ctor
 
     ctor.check(rep, groups=("origin",))
